@@ -179,7 +179,36 @@ Definition badwn_C02 := badwn_mon mon_C02.
 Definition badwn_C03 := badwn_mon mon_C03.
 Definition badwn_C04 := badwn_mon mon_C04.
 Definition badwn_C05 := badwn_mon mon_C05.
-Definition badwn_C08 := badwn_mon mon_C08.
+(* C08: the zombie window (F38) explains two live commands of one name only if one of them belongs to a zombie - an
+   instance whose onProcessEnd had been entered before it launched; two NORMAL instances alive side by side are not
+   what F38 describes. *)
+Definition was_ended (x : oinst) : bool := o_ended x || match o_endst x with Some _ => true | None => false end.
+Fixpoint mon_run_w08 (cs : amap pconf) (o : obs) (kept : list (option name * (tid * event))) (evs : list (tid * event))
+  : option nat :=
+  match evs with
+  | [] => None
+  | e :: r =>
+      let nm := ev_name o (fst e) (snd e) in
+      if mon_C08 cs o e then mon_run_w08 cs (obs_step cs o e) ((nm, e) :: kept) r
+      else
+        let sub := match nm with
+                   | Some n => filter (fun p => match fst p with Some k => N.eqb k n | None => true end) kept
+                   | None => kept
+                   end in
+        let subevs := map snd (rev sub) ++ [e] in
+        let l := windows_narrow cs nm (fold_left (obs_step cs) subevs (obs0 cs)) subevs (map snd (rev kept) ++ [e]) in
+        let zombie_involved :=
+          match ev_inst o (fst e) (snd e) with
+          | Some i => let n := o_nm (oi_get o i) in
+                      was_ended (oi_get o i) ||
+                      existsb (fun p => N.eqb (o_nm (snd p)) n && o_alive (snd p) && was_ended (snd p)) (oi o)
+          | None => true
+          end in
+        Some (code_of_windows (match l with st :: z :: rest => st :: (z && zombie_involved) :: rest | _ => l end))
+  end.
+Definition badwn_C08 (ts : list trace) : list nat :=
+  flat_map (fun t => match mon_run_w08 (t_confs t) (obs0 (t_confs t)) [] (t_evs t) with
+                     | Some w => [w] | None => [] end) ts.
 Definition badwn_C09 := badwn_mon mon_C09.
 (* C12: a stop signal to p is judged against the processes that DEPEND on p, so the windows that explain a
    violation are those of other names: the whole history up to the violation counts *)
